@@ -57,6 +57,18 @@ CHECKS = {
  "C17": dict(design="4/C17", technique="TLC model checking of GlobalSink.tla and GlobalSinkRace.tla (refines GlobalDetach.tla) + exhaustive routing-history replay with probe matrix into real global_entry_sink! globals + TLC trace validation of append-vs-attach/detach races",
    text="TLC proves for every operation history within the constants that routing is first-of(thread-local, runtime, attached), that a panicking install/attach changes nothing and never poisons, that guard/handle drops fall back to the next destination and that a detach flushes what the sink accepted; the lock-level model refines the concurrent property layer for every interleaving; the real macro is bound by executing every routing history up to depth 5 (6 thorough), each followed by appends from every thread x runtime context with TLC's destination matrix as oracle, and by validating recorded races against GlobalDetach.",
    note="small scope (2 threads, 2 runtimes, one fresh sink per install); ServiceMetrics only as an instance of the macro; handle drops observed with a 10 s budget"),
+ "C06": dict(design="4/C06", technique="TLC model checking of KeepAlive.tla (two Arcs + Weak as reference counts, one atomic operation per action; property layer as invariants) + bounded-exhaustive/simulated operation histories and TLC interleavings of partial drops replayed into a real AppendAndCloseOnDrop + TLC trace validation of scheduled and free-running multi-threaded executions (KeepAliveTrace.tla)",
+   text="TLC proves for every interleaving within small constants (<=3 threads, <=2 flush guards, <=2 force guards, <=2 handles, <=2 slots) that the reference-count protocol of Parent/Guard/DropAll emits exactly once, never before the enabling drops have started, and at every quiescent point iff owner+handles are dropped and (all flush guards or some force guard) are dropped, with every owner mutation; the real code is bound by every atomic operation order up to depth 6-9 executed on a real entry with the append count checked after every operation, TLC schedules that stop real threads inside DropAll::drop, at the end of SlotGuard::drop and inside the closing entry, and recorded multi-threaded executions, all judged by the property-level monitor.",
+   note="small-scope exhaustive model; the window between the two decrements of the owner's drop has no hook (free-running scenarios only); Arc/Weak/oneshot trusted linearizable; memory safety of the UnsafeCell not addressed"),
+ "C13": dict(design="4/C13", technique="same KeepAlive.tla modules, slots: Slot and LazySlot, open(Wait) and open(Discard)+delay_flush, wait_for_data completed/abandoned/data taken out; exhaustive histories + TLC schedules + trace validation",
+   text="TLC proves for every interleaving (send and flush-guard release as two steps, the closing entry reading each slot with try_recv semantics as separate steps) that a wait-mode value is present with its last mutation unless a force guard's drop started first, that a discard-mode value is present if the guard's drop ended before the entry began to close and absent if it started after the append, never partial, slot opened once; bound to the real code by exhaustive operation histories (open/re-open/mutate/drop guard/drop parent/wait_for_data/force guards, one or two slots, both slot types), TLC schedules that close the parent between send and guard release, and recorded multi-threaded executions.",
+   note="small-scope; overlapping guard-drop/close outcomes are accepted either way by the property layer (model prediction only as MODEL-DRIFT); wait_for_data bounded by 300 ms (replay) / 10 s (free-running)"),
+ "C18": dict(design="4/C18", technique="TLA+ invariant check of the two-representation stopwatch / timer / timestamp machines against the sum-of-kept-spans property layer (Stopwatch.tla, TLC) + exhaustive and random TLC behaviours replayed step by step into the real Stopwatch/Timer/Timestamp over ManuallyAdvancedTimeSource",
+   text="TLC proves over the whole reachable state space (3 guard slots, advances 0/1/2, bounded clock) that closing the implementation-shaped stopwatch machine (exclusive field / shared cell, idempotent span capture, overwrite = take-then-add, discard, clear, Rust's borrow rule) always yields the total of the completed non-discarded spans since the last clear/overwrite (None if none), and the same for Timer and Timestamp/TimestampOnClose; the real types are bound by replaying every operation sequence up to depth 6 (thorough 7-8) and long random walks, comparing the closed value after every step, at several tick lengths and both ways of injecting the time source.",
+   note="small-scope exhaustiveness (<=3 live guards, depth <=8, walks <=10^4 steps); single-threaded; timestamps rendered as floats compared numerically (1e-12 relative)"),
+ "C20": dict(design="4/C20", technique="TLA+ model checking of the atomic-cell bridge model against the interval-form property layer (MetricsBridge.tla => BridgeObs.tla, with negative models) + TLC trace validation of recorded multi-threaded executions of the real MetricRecorder (MetricsBridgeTrace.tla) + TLC-generated describe/use/readout histories replayed into the real recorder",
+   text="TLC proves for every interleaving within small constants that a readout made of one swap/load per cell reports every applied increment and sample exactly once, that the interval rules over observable call starts/ends accept exactly these executions (load-then-store and snapshot-then-clear readers are rejected), and that the gauge rule always contains the value really held; the real bridge is bound by validating with TLC, event by event, recorded runs with 2-8 OS threads through the metrics 0.24 macros racing a reader thread (deltas, sample counts per value class, gauge last-writer-wins window, names, labels as dimensions, described units), plus exhaustive sequential naming/unit histories.",
+   note="exhaustive only for the MC_mb*.cfg constants; conformance samples OS schedules (mitigated by contention on one key and ~4e5 updates per run); histogram values restricted to 5 well-separated classes; absolute(), gauge increment/decrement not exercised"),
 }
 NOT_YET = {}
 
